@@ -146,7 +146,7 @@ def matches_known(v, known):
     for e in known:
         if e.get("status") != "known":
             continue
-        if all(f.get(k) == val for k, val in e.get("match", {}).items()):
+        if all((f.get(k) in val) if isinstance(val, list) else (f.get(k) == val) for k, val in e.get("match", {}).items()):
             return e
     return None
 
@@ -443,6 +443,8 @@ def _aggregate(agg, s):
         agg["discarded"][k] += v
     if s.get("recipe_class"):
         agg["recipes"][s["recipe_class"]] += 1
+    if cfg.get("exhaustive_first"):
+        agg["stats"]["exhaustive_first_worlds"] += 1
     if len(agg["samples"]) < 4:
         agg["samples"].extend(s.get("samples", [])[: 4 - len(agg["samples"])])
 
